@@ -452,6 +452,41 @@ def run(ctx, rep):
     rep.guarded('D9.d9', d9, ctx, rep)
     rep.guarded('D8.d8', d8, ctx, rep)
     rep.guarded('D10.d10', d10, ctx, rep)
+    rep.guarded('D11.d11', d11, ctx, rep)
+
+
+def d11(ctx, rep):
+    """Unfitted models round-trip to unfitted models: where to_dict accepts an unfitted model (it does not call check_fit),
+    from_dict must not run a validation that fails on the unfitted state (check_fit, or check_theta on theta = None)."""
+    prog = ctx.prog
+    rep.rule('D11.unfitted', 'a from_dict whose to_dict serialises unfitted models does not validate the restored state unconditionally (check_fit / check_theta '
+             'raise on an unfitted model)')
+    for clsq, wname, rname in PAIRS:
+        cls = prog.cls(clsq)
+        w, r = prog.method(clsq, wname), prog.method(clsq, rname)
+        requires_fit = any(isinstance(c, ast.Call) and is_self_attr(c.func, w.self_name, 'check_fit') for c in walk_no_nested(w.node))
+        if requires_fit:
+            continue
+        inst = {a.targets[0].id for a in walk_no_nested(r.node) if isinstance(a, ast.Assign) and isinstance(a.targets[0], ast.Name) and isinstance(a.value, ast.Call)}
+        bad = None
+        for c in walk_no_nested(r.node):
+            if isinstance(c, ast.Call) and isinstance(c.func, ast.Attribute) and isinstance(c.func.value, ast.Name) and c.func.value.id in inst \
+                    and c.func.attr in ('check_fit', 'check_theta'):
+                # guarded by a test on what was restored?
+                p_ = c
+                guarded = False
+                while p_ is not None and p_ is not r.node:
+                    p_ = getattr(p_, '_parent', None)
+                    if isinstance(p_, (ast.If, ast.Try)):
+                        guarded = True
+                if not guarded:
+                    bad = c
+        cons = f'{cls.name}.from_dict: unfitted round trip'
+        if bad is not None:
+            rep.bad('D11.unfitted', r, bad, f'{r.short} calls `{short(bad)}` unconditionally, but {w.short} also serialises unfitted models: from_dict(to_dict(m)) of an unfitted '
+                    'model raises instead of yielding an unfitted model', construct=cons)
+        else:
+            rep.ok('D11.unfitted', r, r.node.name, 'no unconditional validation of the restored state', construct=cons)
 
 
 def d10(ctx, rep):
